@@ -1324,9 +1324,10 @@ class DocutilsRenderer(RendererProtocol):
                 # but JSON cannot represent (e.g. dates, sets or binary data)
                 try:
                     value = json.dumps(value, default=str)
-                except TypeError:
+                except (TypeError, ValueError):
                     # a nested mapping with a key that JSON cannot represent
-                    # (e.g. a date)
+                    # (e.g. a date), or a value that contains itself
+                    # (`a: &x [*x]`)
                     value = str(value)
             value = str(value)
             body = nodes.paragraph()
